@@ -5,7 +5,7 @@ from pyvc import run
 KEEP = ("right after a flag", "no pending escape", "unstuff(raw)", "octets == raw", "2047", "frame_inv", "hunt mode", "collected octets", "pre:", "inv-entry", "dec#", "consumes at least", "left unconsumed")
 def build(repo, tier, seed):
     tasks = M.hdlc_tasks(repo, None, True) + [("p1reader", DM.group_p1reader, (repo,))]
-    r = M.groups_result(tasks, select=lambda oid: any(c in oid for c in KEEP))
+    r = M.groups_result(tasks, select=None)
     r.functions = sorted(set(M.READER_FUNCS) | set(DM.P1_FUNCS))
     r.level = "other"
     r.explanation = ("C16: state claims proved deductively for every reachable state (they are clauses of the reader invariants, which hold after arbitrary input): "
